@@ -1284,12 +1284,29 @@ theorem Inv.init : Inv init where
 
 /-! ### reachable states -/
 
+/-- `clear()` re-establishes the initial invariant -/
+theorem Inv.on_clear {s : State} (h : Inv s) : Inv (clear s) where
+  a := Inv.init.a.of_ent rfl rfl
+  msgs _ hm := nomatch hm
+  noabort := h.noabort
+  sound x := Conn.refl x
+  done _ _ hab := nomatch hab
+  count := rfl
+  cbs_eq := rfl
+  cbs_tree _ he := nomatch he
+  cbs_issued _ he := nomatch he
+  forest := trivial
+  exec _ := ⟨fun _ hm => (nomatch hm), fun _ he => (nomatch he)⟩
+  span _ x := Conn.refl x
+
 /-- one step of the system: a rank calls `async_union[_and_execute]`, any in-flight message is
-delivered, or (`all_find` / `all_compress`) an item is pointed at its representative -/
+delivered, (`all_find` / `all_compress`) an item is pointed at its representative, or — only
+when nothing is in flight, because `clear()` starts with a barrier — the container is cleared -/
 inductive Step : State → State → Prop
   | issue (s : State) (ex : Bool) (a b : Item) : Step s (issue s ex a b)
   | deliver (s : State) (i : Nat) : Step s (deliver s i)
   | compress (s : State) (x : Item) : Step s (compress s x)
+  | clear (s : State) (hq : s.msgs = []) : Step s (clear s)
 
 inductive Steps : State → State → Prop
   | refl (s : State) : Steps s s
@@ -1303,6 +1320,7 @@ theorem Inv.on_step {s s' : State} (h : Inv s) (st : Step s s') : Inv s' := by
   | issue ex a b => exact InvP.on_issue h ex a b
   | deliver i => exact h.on_deliver i
   | compress x => exact h.on_compress x
+  | clear hq => exact h.on_clear
 
 theorem Inv.on_steps {s s' : State} (h : Inv s) (st : Steps s s') : Inv s' := by
   induction st with
@@ -1338,14 +1356,44 @@ theorem issued_compress (s : State) (x : Item) : (compress s x).issued = s.issue
   show (if parent (visit s x) x = x then visit s x else reparent (visit s x) x (root (visit s x) x)).issued = _
   split <;> simp
 
-theorem issued_mono {s s' : State} (st : Steps s s') : ∀ e, e ∈ s.issued → e ∈ s'.issued := by
+/-- a step other than `clear`, together with the unions it issues -/
+inductive UStep : State → List (Item × Item) → State → Prop
+  | issue (s : State) (ex : Bool) (a b : Item) : UStep s [(a, b)] (issue s ex a b)
+  | deliver (s : State) (i : Nat) : UStep s [] (deliver s i)
+  | compress (s : State) (x : Item) : UStep s [] (compress s x)
+
+/-- `USteps s l s'`: from `s` to `s'` without a `clear`; `l` = the unions issued on the way, newest first -/
+inductive USteps : State → List (Item × Item) → State → Prop
+  | refl (s : State) : USteps s [] s
+  | tail {s s' s'' : State} {l e : List (Item × Item)} : USteps s l s' → UStep s' e s'' → USteps s (e ++ l) s''
+
+theorem UStep.toStep {s s' : State} {e : List (Item × Item)} (st : UStep s e s') : Step s s' := by
+  cases st with
+  | issue ex a b => exact Step.issue s ex a b
+  | deliver i => exact Step.deliver s i
+  | compress x => exact Step.compress s x
+
+theorem USteps.toSteps {s s' : State} {l : List (Item × Item)} (st : USteps s l s') : Steps s s' := by
   induction st with
-  | refl => exact fun _ h => h
+  | refl => exact Steps.refl _
+  | tail _ st ih => exact Steps.tail ih st.toStep
+
+theorem Steps.trans {s s' s'' : State} (h1 : Steps s s') (h2 : Steps s' s'') : Steps s s'' := by
+  induction h2 with
+  | refl => exact h1
+  | tail _ st ih => exact Steps.tail ih st
+
+/-- the ghost field `issued` is exactly the list of unions issued since the start of the segment -/
+theorem issued_usteps {s s' : State} {l : List (Item × Item)} (st : USteps s l s') : s'.issued = l ++ s.issued := by
+  induction st with
+  | refl => rfl
   | tail _ st ih =>
-    intro e he
     cases st with
-    | issue ex a b => exact List.mem_cons_of_mem _ (ih e he)
-    | deliver i => rw [issued_deliver]; exact ih e he
-    | compress x => rw [issued_compress]; exact ih e he
+    | issue ex a b => show (_ :: _) = _; rw [ih]; rfl
+    | deliver i => rw [issued_deliver, ih]; rfl
+    | compress x => rw [issued_compress, ih]; rfl
+
+theorem issued_mono {s s' : State} {l : List (Item × Item)} (st : USteps s l s') : ∀ e, e ∈ s.issued → e ∈ s'.issued := by
+  intro e he; rw [issued_usteps st]; exact List.mem_append_right _ he
 
 end YgmVerif.DSet
